@@ -82,7 +82,7 @@ def llvm_as(path, wd):
     return r.rc == 0 and not r.sig, r.err.decode(errors="replace")[-400:]
 
 
-PUB_FN = re.compile(r"^pub (?:extern )?fn (\w+)\(", re.M)
+PUB_FN = re.compile(r"^pub (?:extern )?fn (\w+)\([^\n;]*$", re.M)   # definitions only, not heads
 MAIN_FN = re.compile(r"^fn main\(", re.M)
 DEFINE = re.compile(r"^define ([^@\n]*)@([A-Za-z0-9_.]+)\(", re.M)
 
@@ -436,7 +436,7 @@ def build_program_cases(seed, i, tier):
         entropies = [rng.getrandbits(64) for _ in range(cfg["seeds"])]
         pub_fns = {}
         for it in prog.items:
-            if it.kind == "fn" and (it.name in sp.pub or it.name == "main"):
+            if it.kind == "fn" and (it.name in sp.pub or it.name == "main") and not it.body.rstrip().endswith(";"):
                 m = sp.assign[it.name]
                 new = sp.renames.get(m, {}).get(it.name, it.name)
                 pub_fns.setdefault(sp.files[m], set()).add(new)
